@@ -12,7 +12,7 @@ from __future__ import annotations
 import ast
 import hashlib
 import os
-from typing import Dict, Iterator, List, Optional, Sequence, Tuple
+from typing import Dict, Iterator, List, Optional, Sequence, Set, Tuple
 
 PKG = "comb_spec_searcher"
 MIN_PACKAGE_MODULES = 29
@@ -103,12 +103,17 @@ class ClassInfo:
 
 
 class ModuleInfo:
-    def __init__(self, name: str, path: str, src: str):
+    def __init__(self, name: str, path: str, src: str, tree: Optional[ast.AST] = None, props: Optional[Set[str]] = None):
         self.name = name  # dotted
         self.short = name[len(PKG) + 1 :] if name.startswith(PKG + ".") else name
         self.path = path
         self.src = src
-        self.tree = ast.parse(src, filename=path)
+        self.tree = tree if tree is not None else ast.parse(src, filename=path)
+        self.folded = 0
+        if props is not None and os.environ.get("VSTATIC_NO_CANON") != "1":
+            from .canon import canonicalise
+
+            self.folded = canonicalise(self.tree, props)
         self.functions: Dict[str, FuncInfo] = {}
         self.classes: Dict[str, ClassInfo] = {}
         self.imports: Dict[str, Tuple[str, Optional[str]]] = {}
@@ -175,6 +180,7 @@ class Program:
         pkg_dir = os.path.join(self.root, PKG)
         if not os.path.isdir(pkg_dir):
             raise AnchorError(f"package directory {pkg_dir} not found")
+        pending = []
         for dirpath, dirnames, filenames in os.walk(pkg_dir):
             dirnames[:] = sorted(d for d in dirnames if d != "__pycache__")
             for fn in sorted(filenames):
@@ -191,11 +197,16 @@ class Program:
                     with open(path, encoding="utf-8") as f:
                         src = f.read()
                 try:
-                    mi = ModuleInfo(modname, path, src)
+                    tree = ast.parse(src, filename=path)
                 except SyntaxError as e:
                     raise AnalysisError(f"cannot parse {rel}: {e}") from e
-                self.modules[modname] = mi
-                self.files.append(rel)
+                pending.append((modname, path, rel, src, tree))
+        from .canon import property_names
+
+        self.property_names = property_names([t for *_x, t in pending])
+        for modname, path, rel, src, tree in pending:
+            self.modules[modname] = ModuleInfo(modname, path, src, tree=tree, props=self.property_names)
+            self.files.append(rel)
         if len(self.modules) < MIN_PACKAGE_MODULES:
             raise AnalysisError(
                 f"only {len(self.modules)} package modules parsed, "
